@@ -44,8 +44,8 @@ Proof.
 Qed.
 
 (** * the C09 part of the closing check *)
-Lemma resume_tail_09_indep (r : res) (t t' : foc) :
-  f_k t = f_k t' -> f_09 t = f_09 t' -> f_09 (resume_tail r t) = f_09 (resume_tail r t').
+Lemma resume_tail_09_indep (r : res) (rf : bool) (t t' : foc) :
+  f_k t = f_k t' -> f_09 t = f_09 t' -> f_09 (resume_tail r rf t) = f_09 (resume_tail r rf t').
 Proof.
   intros Hk H9. unfold resume_tail. rewrite Hk. cbv zeta.
   destruct (k_mal (f_k t')); [exact H9|].
@@ -53,24 +53,24 @@ Proof.
   - destruct (k_st (f_k t')); cbn [ffail07 ffail08 ffail09 f_09 f_k]; rewrite ?Hk, ?H9; reflexivity.
 Qed.
 
-Lemma resume_tail_09_flags (r : res) (K : ctrk) :
-  (forall t, f_k t = K -> flags t -> flags (resume_tail r t)) ->
-  forall t, f_k t = K -> f_09 t = true -> f_09 (resume_tail r t) = true.
+Lemma resume_tail_09_flags (r : res) (rf : bool) (K : ctrk) :
+  (forall t, f_k t = K -> flags t -> flags (resume_tail r rf t)) ->
+  forall t, f_k t = K -> f_09 t = true -> f_09 (resume_tail r rf t) = true.
 Proof.
   intros H t Hk H9.
   set (t' := {| f_clock := f_clock t; f_k := f_k t; f_07 := true; f_08 := true; f_09 := true |}).
-  rewrite (resume_tail_09_indep r t t') by (cbn [t' f_k f_09]; auto).
+  rewrite (resume_tail_09_indep r rf t t') by (cbn [t' f_k f_09]; auto).
   apply (H t'); [exact Hk | repeat split].
 Qed.
 
 (** the check only fires after a yield that led to Cancelled or Suspend *)
-Lemma resume_tail_09_other (r : res) (t : foc) :
+Lemma resume_tail_09_other (r : res) (rf : bool) (t : foc) :
   (k_mal (f_k t) = false ->
    match k_last (f_k t) with
    | Some (BYield _ _) => match k_st (f_k t) with Cancelled | Suspend _ _ => False | _ => True end
    | _ => True
    end) ->
-  f_09 (resume_tail r t) = f_09 t.
+  f_09 (resume_tail r rf t) = f_09 t.
 Proof.
   intro H. unfold resume_tail. cbv zeta. destruct (k_mal (f_k t)); [reflexivity|].
   specialize (H eq_refl).
@@ -78,24 +78,24 @@ Proof.
   destruct (k_st (f_k t)); try reflexivity; contradiction.
 Qed.
 
-Lemma opost_f_09_other (o : dop) (r : res) (evs : list ev) (k0 : ctrk) (pend : bool) (t : foc) :
-  (forall i arg, o <> Resume i arg) -> f_09 (opost_f o r evs k0 pend t) = f_09 t.
+Lemma opost_f_09_other (o : dop) (r : res) (evs : list ev) (k0 : ctrk) (clk0 : Z) (pend : bool) (t : foc) :
+  (forall i arg, o <> Resume i arg) -> f_09 (opost_f o r evs k0 clk0 pend t) = f_09 t.
 Proof.
   intro Hn. unfold opost_f. cbv zeta. destruct (res_eqb r RBad); [reflexivity|].
   destruct o; try (exfalso; eapply Hn; reflexivity);
     cbn [ffail07 f_k]; try destruct (k_mal (f_k t)); reflexivity.
 Qed.
 
-Lemma opost_f_09_resume (i : nat) (arg : Z) (r : res) (evs : list ev) (k0 : ctrk) (pend : bool) (t : foc) :
+Lemma opost_f_09_resume (i : nat) (arg : Z) (r : res) (evs : list ev) (k0 : ctrk) (clk0 : Z) (pend : bool) (t : foc) :
   f_09 t = true ->
   (res_eqb r RBad = false -> k_mal k0 = false -> is_terminal (k_st k0) = false ->
-   f_09 (resume_tail r t) = true) ->
-  f_09 (opost_f (Resume i arg) r evs k0 pend t) = true.
+   forall rf, f_09 (resume_tail r rf t) = true) ->
+  f_09 (opost_f (Resume i arg) r evs k0 clk0 pend t) = true.
 Proof.
   intros H9 H. unfold opost_f. cbv zeta. cbn [op_idx].
   destruct (res_eqb r RBad); [exact H9|]. destruct (k_mal k0); [exact H9|].
   destruct (is_terminal (k_st k0)); [exact H9|].
-  rewrite (resume_tail_09_indep r _ t) by reflexivity. apply H; reflexivity.
+  rewrite (resume_tail_09_indep r _ _ t) by reflexivity. apply H; reflexivity.
 Qed.
 
 (** * the weaker invariant *)
@@ -143,7 +143,7 @@ Lemma step_build9 (l : nat) (T T' : thr) (ot : otrk) (o : dop) (r : res) (evs : 
   let gF := fold_left (ev_loc l (op_who o) (op_idx o)) evs (foc0 T k0) in
   t_clock T' = f_clock gF ->
   trk9 cnew (f_k gF) ->
-  (forall t pend, f_k t = f_k gF -> f_09 t = true -> f_09 (opost_f o r evs k0 pend t) = true) ->
+  (forall t clk0 pend, f_k t = f_k gF -> f_09 t = true -> f_09 (opost_f o r evs k0 clk0 pend t) = true) ->
   Inv9 l T' (ostep1 l ot o r evs).
 Proof.
   intros HI Hns Hall Hupd Hnl Hts Hcn k0 gF Hclk Htrk H9.
@@ -215,8 +215,8 @@ Lemma step_quiet9 (l : nat) (T : thr) (ot : otrk) (o : dop) (r : res) (c : co) :
   Inv9 l T ot ->
   (forall x, o <> SetClock x) ->
   nth_error (t_cos T) (op_idx o) = Some c ->
-  (forall t pend, f_k t = clear_op (get_k ot (op_idx o)) -> f_09 t = true ->
-     f_09 (opost_f o r [] (clear_op (get_k ot (op_idx o))) pend t) = true) ->
+  (forall t clk0 pend, f_k t = clear_op (get_k ot (op_idx o)) -> f_09 t = true ->
+     f_09 (opost_f o r [] (clear_op (get_k ot (op_idx o))) clk0 pend t) = true) ->
   Inv9 l T (ostep1 l ot o r []).
 Proof.
   intros HI Hns Hc H9.
@@ -265,7 +265,7 @@ Proof.
   - apply (inv9_cn _ _ _ HI).
   - fold i k0. rewrite HF, Qc. reflexivity.
   - fold i k0. rewrite HF. exact Qk.
-  - intros t pend _ H9. rewrite opost_f_09_other by exact Hnr. exact H9.
+  - intros t clk0 pend _ H9. rewrite opost_f_09_other by exact Hnr. exact H9.
 Qed.
 
 Lemma step_ExtRunning9 (l : nat) (T T' : thr) (ot : otrk) (i : nat) (r : res) (evs : list ev) :
@@ -281,10 +281,10 @@ Proof.
     apply (step_ext_change9 l T ot (ExtRunning i) c new HI); auto.
   - injection Hd as <- <- <-.
     eapply step_quiet9; try exact HI; try (intros x; discriminate); [exact Hc|].
-    intros t pend _ H9. rewrite opost_f_09_other by (intros; discriminate). exact H9.
+    intros t clk0 pend _ H9. rewrite opost_f_09_other by (intros; discriminate). exact H9.
   - injection Hd as <- <- <-.
     eapply step_quiet9; try exact HI; try (intros x; discriminate); [exact Hc|].
-    intros t pend _ H9. rewrite opost_f_09_other by (intros; discriminate). exact H9.
+    intros t clk0 pend _ H9. rewrite opost_f_09_other by (intros; discriminate). exact H9.
 Qed.
 
 Lemma step_ExtSyscall9 (l : nat) (T T' : thr) (ot : otrk) (i : nat) (y n : Z) (s : sysst) (r : res) (evs : list ev) :
@@ -302,7 +302,7 @@ Proof.
     + apply run_st_not_terminal. exact Hrun.
   - injection Hd as <- <- <-.
     eapply step_quiet9; try exact HI; try (intros x; discriminate); [exact Hc|].
-    intros t pend _ H9. rewrite opost_f_09_other by (intros; discriminate). exact H9.
+    intros t clk0 pend _ H9. rewrite opost_f_09_other by (intros; discriminate). exact H9.
 Qed.
 
 (** * Resume *)
@@ -319,8 +319,8 @@ Lemma finish_sim9 (T1 : thr) (c1 : co) (f2 : foc) (T2 : thr) (c2 : co) (evx : li
     /\ cos_upd (t_cos T1) i cfin (t_cos T') /\ t_nl T' = t_nl T1 /\ t_ts T' = [] /\ t_cn T' = []
     /\ t_clock T' = f_clock (F efin (F evx f2))
     /\ trk9 cfin (f_k (F efin (F evx f2)))
-    /\ (k_mal (f_k f2) = false -> forall t, f_k t = f_k (F efin (F evx f2)) -> f_09 t = true ->
-        f_09 (resume_tail r t) = true).
+    /\ (k_mal (f_k f2) = false -> forall rf t, f_k t = f_k (F efin (F evx f2)) -> f_09 t = true ->
+        f_09 (resume_tail r rf t) = true).
 Proof.
   intros Hpost Hts Hcn Hl Hi Hfin.
   assert (Hnp : (forall pk, out <> OPanic pk) ->
@@ -328,14 +328,14 @@ Proof.
     /\ cos_upd (t_cos T1) i cfin (t_cos T') /\ t_nl T' = t_nl T1 /\ t_ts T' = [] /\ t_cn T' = []
     /\ t_clock T' = f_clock (F efin (F evx f2))
     /\ trk9 cfin (f_k (F efin (F evx f2)))
-    /\ (k_mal (f_k f2) = false -> forall t, f_k t = f_k (F efin (F evx f2)) -> f_09 t = true ->
-        f_09 (resume_tail r t) = true)).
+    /\ (k_mal (f_k f2) = false -> forall rf t, f_k t = f_k (F efin (F evx f2)) -> f_09 t = true ->
+        f_09 (resume_tail r rf t) = true)).
   { intro Hno.
     destruct (finish_sim l i T1 c1 f2 T2 c2 evx out evs0 T' r evs Hpost Hts Hcn Hl Hi
                 (fun _ => or_intror Hno) Hfin) as (efin & cfin & E & Hok).
     destruct Hok as (N1 & N2 & N3 & N4 & N5 & N6 & N7 & N8 & N8' & N9 & N10).
     exists efin, cfin. repeat (split; [assumption|]).
-    intros Hm t Ht H9. eapply resume_tail_09_flags; [apply (N10 Hm) | exact Ht | exact H9]. }
+    intros Hm rf t Ht H9. eapply resume_tail_09_flags; [apply (N10 Hm rf) | exact Ht | exact H9]. }
   destruct out as [y | v | pk]; try (apply Hnp; intros pk; discriminate).
   clear Hnp.
   pose proof (post_pre l i _ _ _ _ _ _ _ Hpost) as Hpre.
@@ -353,7 +353,7 @@ Proof.
     split; [cbn [upd_co t_cos]; rewrite P3; apply cos_upd_set2; exact Hi|].
     split; [exact P4|]. split; [cbn [upd_co t_ts]; congruence|]. split; [cbn [upd_co t_cn]; congruence|].
     split; [rewrite Qc; reflexivity|]. split; [exact Qk|].
-    intros Hm t Ht H9. rewrite resume_tail_09_other; [exact H9|].
+    intros Hm rf t Ht H9. rewrite resume_tail_09_other; [exact H9|].
     intro Hmt. rewrite Ht in Hmt |- *. destruct (Qk Hmt) as (Hst & _). rewrite Hst.
     destruct (k_last _) as [[]|]; exact I.
   - injection Hfin as <- <- <-.
@@ -362,7 +362,7 @@ Proof.
     split; [cbn [upd_co t_cos]; rewrite P3; apply cos_upd_set; exact Hi|].
     split; [exact P4|]. split; [cbn [upd_co t_ts]; congruence|]. split; [cbn [upd_co t_cn]; congruence|].
     split; [rewrite P6; reflexivity|]. split; [exact Ptrk|].
-    intros Hm t Ht H9. rewrite resume_tail_09_other; [exact H9|].
+    intros Hm rf t Ht H9. rewrite resume_tail_09_other; [exact H9|].
     intro Hmt. rewrite Ht in Hmt |- *. destruct (Ptrk Hmt) as (Hst & _). rewrite Hst.
     destruct (k_last _) as [[]|]; try exact I.
     destruct (c_st c2); cbn [run_st] in P1; try discriminate; exact I.
@@ -386,8 +386,8 @@ Proof.
   assert (Hquiet : forall r', resume T i arg = (T, r', []) ->
                    Inv9 l T (ostep1 l ot (Resume i arg) r' [])).
   { intros r' _. eapply step_quiet9; try exact HI; try (intros x; discriminate); [exact Hc|].
-    cbn [op_idx]. fold k0. intros t pend Ht H9. apply opost_f_09_resume; [exact H9|].
-    intros _ _ _. rewrite resume_tail_09_other; [exact H9|]. intros _. rewrite Ht, Hlast0. exact I. }
+    cbn [op_idx]. fold k0. intros t clk0 pend Ht H9. apply opost_f_09_resume; [exact H9|].
+    intros _ _ _ rf. rewrite resume_tail_09_other; [exact H9|]. intros _. rewrite Ht, Hlast0. exact I. }
   assert (Hdone : (exists x, c_st c = Complete x) \/ (exists m, c_st c = Error m) ->
                   Inv9 l T' (ostep1 l ot (Resume i arg) r evs)).
   { intro Hd. pose proof (resume_done T i arg c Hc Hd) as E. rewrite E in Hres.
@@ -412,8 +412,8 @@ Proof.
     + rewrite M4. apply (inv9_cn _ _ _ HI).
     + destruct E1 as (Ec & _). rewrite Ec. exact M5.
     + exact (proj2 (proj2 E1)).
-    + intros t pend Ht H9. apply opost_f_09_resume; [exact H9|].
-      intros _ Hm0 _. rewrite resume_tail_09_other; [exact H9|]. intros _. rewrite Ht.
+    + intros t clk0 pend Ht H9. apply opost_f_09_resume; [exact H9|].
+      intros _ Hm0 _ rf. rewrite resume_tail_09_other; [exact H9|]. intros _. rewrite Ht.
       destruct (E4 Hm0) as (_ & ->). rewrite Hlast0. exact I.
   - destruct (exec (c_body c1) T1 i c1 []) as [[[T2 c2] evx] out] eqn:Hex.
     destruct (first_sim l i T1 c1 arg f1) as (G1 & G2 & G3 & G4); [rewrite M5; exact E1 | exact E5 |].
@@ -436,8 +436,8 @@ Proof.
     + congruence.
     + rewrite HF. exact N6.
     + rewrite HF. exact N8.
-    + rewrite HF. intros t pend Ht H9. apply opost_f_09_resume; [exact H9|].
-      intros _ Hm0 _. apply N10; [rewrite G2, E2; exact Hm0 | exact Ht | exact H9].
+    + rewrite HF. intros t clk0 pend Ht H9. apply opost_f_09_resume; [exact H9|].
+      intros _ Hm0 _ rf. apply N10; [rewrite G2, E2; exact Hm0 | exact Ht | exact H9].
 Qed.
 
 Lemma step_inv9 (l : nat) (T T' : thr) (ot : otrk) (o : dop) (r : res) (evs : list ev) :
@@ -451,7 +451,7 @@ Proof.
     apply step_noidx9 with (T := T); try exact HI; try reflexivity. right. exists x. reflexivity.
   - cbn [dstep] in Hd. destruct (nth_error (t_cos T) i) as [c|] eqn:Hc; injection Hd as <- <- <-.
     + eapply step_quiet9; try exact HI; try (intros x; discriminate); [exact Hc|].
-      intros t pend _ H9. rewrite opost_f_09_other by (intros; discriminate). exact H9.
+      intros t clk0 pend _ H9. rewrite opost_f_09_other by (intros; discriminate). exact H9.
     + apply step_noidx9 with (T := T); auto.
 Qed.
 
